@@ -131,6 +131,7 @@ func genDispatch(c *ctx) string {
 	b.WriteString("def condByIdentity : Bool := " + condByIdentityForm(c) + "\n")
 	b.WriteString("def anonAmongOthers : Bool := " + anonAmongOthersForm(c) + "\n")
 	b.WriteString("def metaArgsUnchecked : Bool := " + metaArgsFact(c) + "\n")
+	b.WriteString("def ptrValueDistinct : Bool := " + ptrValueForm(c) + "\n")
 	b.WriteString("def reflectOptionalRefused : Bool := " + reflectOptionalForm(c) + "\n")
 	b.WriteString("def inputDefaultsRaw : Bool := " + inputValidateForm(c) + "\n")
 	b.WriteString("def listNotCoerced : Bool := " + lnc + "\n")
@@ -355,6 +356,56 @@ func metaArgsFact(c *ctx) string {
 		return f
 	}
 	return unknown("__typename arm of resolveField", "resolve.go")
+}
+
+// ptrValueForm (D102): is an object type bound to the exact reflect.Type first seen — so that a value and a pointer
+// to it are two Go types, the later one refused or unresolved — or to the type with the pointers removed, the methods
+// being those of the pointer to it and a value receiver copied to have one?  All five sites must agree.
+func ptrValueForm(c *ctx) string {
+	norm := func(name string) string {
+		fd := c.funcs[name]
+		if fd == nil {
+			return ""
+		}
+		t := regexp.MustCompile(`(?m)//.*$`).ReplaceAllString(c.src(fd.Body), "")
+		return regexp.MustCompile(`\s+`).ReplaceAllString(t, " ")
+	}
+	mc, at, grt, rf, rs, rr := norm("Object.metaCheck"), norm("Root.assureType"), norm("Root.getReflectType"), norm("Root.regField"), norm("Root.resolve"), norm("Root.resolveReflect")
+	if mc == "" || at == "" || grt == "" || rf == "" || rs == "" || rr == "" {
+		return unknown("binding functions", "root.go")
+	}
+	exact := []bool{
+		strings.Contains(mc, "t.meta = rt") && !strings.Contains(mc, "baseType("),
+		strings.Contains(at, "meta := reflect.TypeOf(sample)"),
+		strings.Contains(grt, "m == meta {") && !strings.Contains(grt, "baseType("),
+		strings.Contains(rf, "for i := objMeta.NumMethod() - 1; 0 <= i; i-- {") && !strings.Contains(rf, "reflect.PtrTo("),
+		strings.Contains(rs, "} else if objType == meta {"),
+		!strings.Contains(rr, "reflect.New(ov.Type())"),
+	}
+	base := []bool{
+		strings.Contains(mc, "bt := baseType(rt) if t.meta == nil {") && strings.Count(mc, "t.meta = bt") == 2 && !strings.Contains(mc, "t.meta = rt"),
+		strings.Contains(at, "meta := baseType(reflect.TypeOf(sample))"),
+		strings.Contains(grt, "m != nil && m == baseType(meta) {"),
+		strings.Contains(rf, "objMeta = reflect.PtrTo(objMeta) for i := objMeta.NumMethod() - 1; 0 <= i; i-- {"),
+		strings.Contains(rs, "} else if baseType(objType) == meta {"),
+		strings.Contains(rr, "for ov.Kind() == reflect.Ptr && ov.Elem().Kind() == reflect.Ptr { ov = ov.Elem() } if ov.Kind() != reflect.Ptr { pv := reflect.New(ov.Type()) pv.Elem().Set(ov) ov = pv } args, ea2 := root.formReflectArgs(ov, vars, field, fd)"),
+	}
+	all := func(bs []bool) bool {
+		for _, b := range bs {
+			if !b {
+				return false
+			}
+		}
+		return true
+	}
+	bt := c.funcs["baseType"]
+	switch {
+	case all(exact) && bt == nil:
+		return "true"
+	case all(base) && bt != nil && norm("baseType") == "{ for rt != nil && rt.Kind() == reflect.Ptr { rt = rt.Elem() } return rt }":
+		return "false"
+	}
+	return unknown("Go type binding sites", "root.go")
 }
 
 // reflectOptionalForm (D94): is an optional argument that is left out (or null) refused by checkReflectArgs
@@ -902,7 +953,8 @@ func bindingForms(c *ctx) (unionFirstCome, ifaceNeedsBound string) {
 		switch norm(fd.Body) {
 		case `{ for _, t := range root.types.list { o, _ := t.(*Object) if o != nil { o.mu.Lock() if o.meta == meta { obj = o o.mu.Unlock() break } o.mu.Unlock() } } return }`:
 			ifaceNeedsBound = "true"
-		case `{ for _, t := range root.types.list { if o, _ := t.(*Object); o != nil { if m, _ := o.metaCheck(meta); m == meta { obj = o break } } } return }`:
+		case `{ for _, t := range root.types.list { if o, _ := t.(*Object); o != nil { if m, _ := o.metaCheck(meta); m == meta { obj = o break } } } return }`,
+			`{ for _, t := range root.types.list { if o, _ := t.(*Object); o != nil { if m, _ := o.metaCheck(meta); m != nil && m == baseType(meta) { obj = o break } } } return }`:
 			ifaceNeedsBound = "false"
 		default:
 			ifaceNeedsBound = unknown("getReflectType body", c.pos(fd))
@@ -930,7 +982,8 @@ func bindingForms(c *ctx) (unionFirstCome, ifaceNeedsBound string) {
 			switch strings.Join(parts, " ; ") {
 			case head + `for _, m := range tt.Members { if ot, _ := m.(*Object); ot != nil { if meta, err := ot.metaCheck(objType); err != nil { return nil, []error{err} } else if objType == meta { result, ea = root.resolveFieldSels(obj, vars, field, m, depth-1) break } } }`:
 				unionFirstCome = "true"
-			case head + `var unbound error ; for _, m := range tt.Members { if ot, _ := m.(*Object); ot != nil { if meta, err := ot.metaCheck(objType); err != nil { if unbound == nil { unbound = err } } else if objType == meta { result, ea = root.resolveFieldSels(obj, vars, field, m, depth-1) unbound = nil break } } } ; if unbound != nil { return nil, []error{unbound} }`:
+			case head + `var unbound error ; for _, m := range tt.Members { if ot, _ := m.(*Object); ot != nil { if meta, err := ot.metaCheck(objType); err != nil { if unbound == nil { unbound = err } } else if objType == meta { result, ea = root.resolveFieldSels(obj, vars, field, m, depth-1) unbound = nil break } } } ; if unbound != nil { return nil, []error{unbound} }`,
+				head + `var unbound error ; for _, m := range tt.Members { if ot, _ := m.(*Object); ot != nil { if meta, err := ot.metaCheck(objType); err != nil { if unbound == nil { unbound = err } } else if baseType(objType) == meta { result, ea = root.resolveFieldSels(obj, vars, field, m, depth-1) unbound = nil break } } } ; if unbound != nil { return nil, []error{unbound} }`:
 				unionFirstCome = "false"
 			default:
 				unionFirstCome = unknown("resolve union arm body", c.pos(cc))
